@@ -62,6 +62,8 @@ type fnSpec struct {
 	oneofView    string            // the oneof table to read literals of oneof members with (where a Go wrapper type is listed in more than one)
 	assertPtrFields map[string]string // "x.(*T)" -> pointer field of x's representation holding x's value when its dynamic type is *T
 	fatalNil     bool              // the function returns a pointer and reports by t.Fatalf: failing the test is returning none (the caller, a tbFatal function, stops there)
+	assertBoolFields map[string]string // "x.(*T)" -> Boolean field of x's representation: whether x's dynamic type is *T
+	statusViews  bool              // *status.Status and its protobuf are one struct: s.Proto(), status.FromProto(p), proto.Clone(p).(*T) are copies; s.Code(), s.Message() read fields; proto.Equal compares field by field
 	inlineClosures bool            // local procedures (function literals without results or returns, bound to a name) are expanded where they are called (see expandClosures)
 	extConsts    map[string]string // constants of package constants the function names -> their value (checked against constants/const.go)
 }
@@ -722,6 +724,22 @@ var chkErrSpecs = []fnSpec{
 			{goName: "count", goType: "int", lean: "count", kd: kNat},
 		},
 		goRets: "", rets: []string{"bool"},
+	},
+	{
+		file: "chk/chk.go", goName: "HasRecvClientErrorWithStatus", callAs: "HasRecvClientErrorWithStatus§", leanName: "hasRecvStatus", tbFatal: true, valueLoops: true,
+		params: []param{
+			{goName: "t", goType: "testing.TB", lean: "t", kd: kStr, skip: true},
+			{goName: "err", goType: "error", lean: "err", kd: kPtr("ErrView")},
+			{goName: "want", goType: "*status.Status", lean: "want", kd: kPtr("GStatus"), nonnil: true},
+			{goName: "opts", goType: "...ErrorOpt", lean: "opts", kd: kind{k: "list", s: "ErrOptG", elemNN: true}},
+		},
+		goRets: "", rets: []string{"bool"},
+		// what status.FromError makes of a receive error is how the error is represented
+		oracles: map[string]oracle{"status.FromError": {results: []string{"$0", "$0"}, okOf: true}},
+		assertBoolFields: map[string]string{"o.(*allowUnimplemented)": "IsAllowUnimplemented", "o.(*ignoreDetails)": "IsIgnoreDetails"},
+		statusViews:      true,
+		typeMap:          map[string]string{"gspb.Status": "GStatus", "status.Status": "GStatus"},
+		consts:           map[string]string{},
 	},
 }
 
